@@ -42,6 +42,8 @@ def dispatch (line : String) : String :=
   | "lffrag" :: args => C04.lffrag args
   | "canjoin" :: args => C04.canjoin args
   | "lfnever" :: args => C04.lfnever args
+  | "lfstatic" :: args => C04.lfstatic args
+  | "lfeval" :: args => C04.lfeval args
   | "lfjoined" :: args => C04.lfjoined args
   | "lfanalyse" :: args => C04.lfanalyse args
   | "lfpossible" :: args => C04.lfpossible args
